@@ -37,21 +37,31 @@ type VExchange struct {
 	c   *conn
 }
 
-func vExchange(env *ber.Packet) *VExchange {
-	nc := vNetConn("x")
-	c, err := newConn(context.Background(), 1, nc, vLogger(), vMux())
+func vExchange(env *ber.Packet) *VExchange { return vExchangeL(env, false) }
+
+// vExchangeL: the request arrives through the connection's reader; with debug set
+// the server's logger is at debug level (gldap pretty-prints the packet first).
+func vExchangeL(env *ber.Packet, debug bool) *VExchange { return vExchangeN("x", env, debug) }
+
+func vExchangeN(name string, env *ber.Packet, debug bool) *VExchange {
+	nc := vNetConn(name)
+	vConnFeed(nc, vWire(env))
+	c, err := newConn(context.Background(), 1, nc, vLoggerAt(debug), vMux())
 	vAssume(err == nil)
-	r, err := newRequest(1, c, &packet{Packet: vWire(env)})
+	r, err := c.readRequest(1)
 	vAssume(err == nil && r != nil)
 	w, err := newResponseWriter(c.writer, &c.writerMu, c.logger, c.connID, 1)
 	vAssume(err == nil)
 	return &VExchange{Req: r, W: w, nc: nc, c: c}
 }
 
-func VBindExchange(id int64, dn, pw string) *VExchange {
+func VBindExchange(id int64, dn, pw string) *VExchange { return VBindExchangeL(id, dn, pw, false) }
+
+// VBindExchangeL: debug = the server logs at debug level
+func VBindExchangeL(id int64, dn, pw string, debug bool) *VExchange {
 	vSummarise("encodeInteger")
 	vSummarise("encodeLength")
-	x := vExchange(refEnvelope(id, refApp(ApplicationBindRequest, refInt(3), refOctet(dn), refCtxPrim(0, pw)), nil))
+	x := vExchangeL(refEnvelope(id, refApp(ApplicationBindRequest, refInt(3), refOctet(dn), refCtxPrim(0, pw)), nil), debug)
 	vSummarise("-encodeLength")
 	vSummarise("-encodeInteger")
 	return x
@@ -168,3 +178,29 @@ func VServerTLSConfig(s *Server) *tls.Config { return vTLSConfigOf(s.listener) }
 
 // VServerListening reports whether the server holds a listener.
 func VServerListening(s *Server) bool { return s.listener != nil }
+
+// VStartTLSExchange: a StartTLS request on its own connection <name>; with
+// pending set the client has not started its handshake yet (Request.StartTLS
+// blocks until the connection is closed), otherwise the handshake succeeds.
+func VStartTLSExchange(name string, id int64, pending bool) *VExchange {
+	x := vExchangeN(name, refEnvelope(id, refStartTLSOp(), nil), false)
+	if pending {
+		vConnSet(x.c.netConn, "tlsPending", true)
+	} else {
+		vConnSet(x.c.netConn, "tlsOK", true)
+	}
+	return x
+}
+
+// VNamedBindExchange: a simple bind on its own connection <name>.
+func VNamedBindExchange(name string, id int64, dn, pw string) *VExchange {
+	return vExchangeN(name, refEnvelope(id, refApp(ApplicationBindRequest, refInt(3), refOctet(dn), refCtxPrim(0, pw)), nil), false)
+}
+
+// Close closes the exchange's connection (as the client going away would).
+func (x *VExchange) Close() { _ = x.c.netConn.Close() }
+
+// Upgraded reports whether the exchange's connection is now a TLS connection.
+func (x *VExchange) Upgraded() bool { return vTLSConfigOf(x.c.netConn) != nil }
+
+func VGo(f func()) { go f() }
